@@ -135,36 +135,56 @@ def spec (_ : Unit) (op : String) (obs : String) : String :=
   if os == ["panic"] then "specfail C30/panic the codec panicked" else
   match ws with
   | "reset" :: _ => "specskip"
-  | "delim" :: _ => "specskip"
+  | "delim" :: _ =>
+    -- `parse_delimiter` against the textbook base-128 definition
+    match hexArg? ws "data" with
+    | some d =>
+      let expected : String := match specDelimiter d with
+        | some (len, used) => s!"some {len} {toHexOrDash (d.drop used)}"
+        | none => "none"
+      if obs == expected then "specok"
+      else "specfail C30/delimiter parse_delimiter disagrees with the base-128 length definition"
+    | none => "specfail C30/unparsed"
   | "req" :: _ =>
     match parseReq ws, natArg? os "wl", obsReq os with
     | some r, some wl, some o =>
-      match natArg? ws "trunc" with
-      | some k =>
-        if k < wl then
-          (if specTruncated o then "specok" else "specfail C30/request-truncated-not-error a strict prefix of a written request was read as a value")
-        else "specskip"
-      | none =>
-        if specRoundTrip (showReq r) (decide (wl ≤ 1024)) o then "specok"
-        else "specfail C30/request-roundtrip the request read back differs from the one written"
+      let cut := (natArg? ws "trunc").getD wl
+      if cut < wl then
+        (if specTruncated o then "specok" else "specfail C30/request-truncated-not-error a strict prefix of a written request was read as a value")
+      else if wl ≤ 1024 then
+        (if specRoundTrip (showReq r) true o then "specok"
+         else "specfail C30/request-roundtrip the request read back differs from the one written")
+      else
+        -- does not fit the 1024-byte limit: it is read as a strict prefix, which must be an error
+        (if specTruncated o then "specok"
+         else "specfail C30/request-over-limit-not-error a request longer than the size limit was read as a value")
     | _, _, _ => "specfail C30/unparsed"
   | "resp" :: _ =>
     match (arg? ws "items").bind parseItems, natArg? os "wl", obsResps os with
     | some rs, some wl, some o =>
       let sent := rs.map digest
-      match natArg? ws "trunc" with
-      | some k =>
-        if k < wl then
-          if specTruncated o then "specok"
-          else if specTruncatedWeak sent o then
-            "specfail C30/read_response-truncated-after-complete-frame a truncated response stream was read as the non-empty list of the frames that were complete, not as an error"
-          else "specfail C30/response-truncated-wrong-value a truncated response stream was read as a value that is not a prefix of what was written"
-        else "specskip"
-      | none =>
-        if specRoundTrip sent (decide (wl ≤ 10 * 1024 * 1024)) o then "specok"
-        else if rs.isEmpty && o == .err then
+      let lens := rs.map (fun r => (lengthDelimited (encodeResponse r)).length)
+      if lens.foldl (· + ·) 0 != wl then
+        "specfail C30/wire-length the written stream is not the concatenation of the length-delimited responses"
+      else
+      let cut := (natArg? ws "trunc").getD wl
+      let limit := 10 * 1024 * 1024
+      if cut < wl then
+        -- truncated stream (chunks are positive in `resp` ops: the reader gets min cut limit bytes)
+        if specTruncated o then "specok"
+        else if completeCount lens (min cut limit) ≥ 1 && specTruncatedExact lens sent (min cut limit) o then
+          "specfail C30/read_response-truncated-after-complete-frame a truncated response stream was read as exactly the list of the frames complete before the cut, not as an error"
+        else "specfail C30/response-truncated-wrong-value a truncated response stream was read as something else than an error or exactly the frames complete before the cut"
+      else if wl ≤ limit then
+        if specRoundTrip sent true o then "specok"
+        else if rs.isEmpty && wl == 0 && o == .err then
           "specfail C30/read_response-empty-list-is-error the empty response list is written as zero bytes and read back as an error"
         else "specfail C30/response-roundtrip the response list read back differs from the one written"
+      else
+        -- does not fit the limit: no claim of the property, but never a wrong value: exactly the frames
+        -- complete within the first `limit` bytes, an error if there is none
+        if specTruncatedExact lens sent limit o then "specok"
+        else "specfail C30/response-over-limit-wrong-value a response list over the size limit was read as something else than the frames complete within the limit"
     | _, _, _ => "specfail C30/unparsed"
   | "rawreq" :: _ | "rawresp" :: _ =>
     match hexArg? ws "data", splitObs os with
